@@ -34,7 +34,10 @@ GENES = ['gA', 'gB', 'gC']
 KEYMODES = ['joined:chrom', 'joined:GN', 'joined:GN,DA', 'joined:reference_name,DA', 'joined:DA,DS', 'single:GN',
             'single:GN,DA', 'single:DA,chrom', 'bin', 'bin:GN', 'bin:DS', 'binslide', 'byvalue:GN', 'byvalue:DA,chrom',
             'split:GN', 'split:GN,DA', 'splitsingle:GN', 'splitsingle:GN,DA', 'bed:GN', 'bed:GN,DA', 'bedsingle:GN',
-            'bedsingle:GN,DA', 'bedbyvalue:GN', 'bedsplit:GN', 'bedsplitsingle:GN', 'splitbin:DS', 'splitbin:GN']
+            'bedsingle:GN,DA', 'bedbyvalue:GN', 'bedsplit:GN', 'bedsplitsingle:GN', 'splitbin:DS', 'splitbin:GN',
+            'joined:BI,chrom', 'joined:bi', 'single:BI,DA',            # BI <-> bi alias lookup of metaFromRead
+            # combinations the tool documents as not implemented / that this check does not judge: executed, recorded, NOTEd
+            'splitbyvalue:GN', 'singlebin:GN', 'singlebyvalue:GN,XV']
 
 
 def cigar_ops(c):
@@ -79,10 +82,14 @@ def gen_tags(rng, d):
     feats, nums = {}, {}
     if rng.random() < 0.9:
         feats['GN'] = rng.sample(GENES, rng.choice([1, 1, 2]))
+        if rng.random() < 0.06:
+            feats['GN'] = rng.choice([feats['GN'] + [''], [''] + feats['GN'], ['']])      # empty parts / empty tag value
     if rng.random() < 0.85:
         feats['DA'] = [rng.choice(['ref', 'alt'])]
     if rng.random() < 0.8:
         nums['XV'] = rng.choice([0, 1, 2, 5])
+    if rng.random() < 0.7:
+        nums[rng.choice(['bi', 'BI'])] = rng.choice([0, 1, 7])      # cell index under the old or the new tag name
     d['feats'], d['nums'] = feats, nums
     d['rr'] = rng.random() < 0.12
     d['nm'] = rng.choice([-1, -1, 0, 1, 2, 3, 4])
@@ -203,7 +210,7 @@ def to_segment(header, d):
 
 def base_opts(scene):
     return {'r1only': False, 'r2only': False, 'filterMP': False, 'proper': False, 'no_indels': False, 'no_softclips': False,
-            'filterXA': False, 'dedup': False, 'nodivide': False, 'divmm': False, 'split': False, 'keep': False,
+            'filterXA': False, 'dedup': False, 'nodivide': False, 'divmm': False, 'split': False, 'keep': False, 'bulk': False,
             'minMQ': 0, 'max_edits': -1, 'blacklist': [], 'byvalue': '', 'mode': 'joined', 'tags': ['chrom'],
             'bin': 0, 'bintag': 'DS', 'sliding': 0, 'bed': [], 'usebed': False, 'contig': '', 'delim': ',',
             'reflen': dict(scene[2]), 'nonames': False}
@@ -235,6 +242,12 @@ def set_keymode(rng, o, km, scene):
             o['split'] = True
     elif kind == 'byvalue':
         o['mode'], o['tags'], o['byvalue'] = 'joined', tags, 'XV'
+    elif kind == 'splitbyvalue':
+        o['mode'], o['tags'], o['split'], o['byvalue'] = 'joined', tags, True, 'XV'
+    elif kind == 'singlebin':
+        o['mode'], o['tags'], o['bin'] = 'single', tags, 10
+    elif kind == 'singlebyvalue':
+        o['mode'], o['tags'], o['byvalue'] = 'single', tags, 'XV'
     elif kind in ('split', 'splitsingle'):
         o['mode'], o['tags'], o['split'] = ('single' if kind == 'splitsingle' else 'joined'), tags, True
     elif kind.startswith('bed'):
@@ -283,7 +296,7 @@ def namespace(o, bam, bedpath, blpath):
         divideMultimapping=o['divmm'], doNotDivideFragments=o['nodivide'], contig=o['contig'] or None,
         blacklist=blpath if o['blacklist'] else None, r1only=o['r1only'], r2only=o['r2only'], filterMP=o['filterMP'],
         splitFeatures=o['split'], feature_delimiter=o['delim'], featureDelimiter=o['delim'], noNames=o['nonames'],
-        keepOverBounds=o['keep'], bulk=False)
+        keepOverBounds=o['keep'], bulk=o['bulk'])
 
 
 # ------------------------------------------------------------------------------------------------
@@ -304,6 +317,28 @@ def flatten(df):
     return rows
 
 
+def read_csv_table(path):
+    """The CSV written by the tool with --noNames: header = one empty cell per index level + the column names."""
+    import csv
+    with open(path, newline='') as f:
+        rows = list(csv.reader(f))
+    if not rows or len(rows[0]) <= 1:
+        return []
+    n_idx = 0
+    while n_idx < len(rows[0]) and rows[0][n_idx] == '':
+        n_idx += 1
+    cols, out = rows[0][n_idx:], []
+    for r in rows[1:]:
+        for c, v in zip(cols, r[n_idx:]):
+            if v == '':
+                continue
+            w = float(v) * DEN
+            if abs(w - round(w)) > 1e-6:
+                raise AssertionError('weight %r is not a multiple of 1/%d' % (v, DEN))
+            out.append({'sample': c, 'key': r[:n_idx], 'w': int(round(w))})
+    return out
+
+
 def run_one(ct, o, bam, tmp, reuse=False, via='df'):
     """One (or, with reuse, two consecutive) call(s) of create_count_table with the SAME namespace object.
     via='pickle': the export path (-o x.pickle, read back with pandas) instead of return_df=True."""
@@ -321,7 +356,12 @@ def run_one(ct, o, bam, tmp, reuse=False, via='df'):
         raised, rows, df = '', [], None
         with contextlib.redirect_stdout(io.StringIO()):
             try:
-                if via == 'pickle':
+                if via == 'csv':
+                    args.o = os.path.join(tmp, 'table.csv')
+                    ct.create_count_table(args, return_df=False)
+                    rows = read_csv_table(args.o)
+                    os.remove(args.o)
+                elif via == 'pickle':
                     import pandas as pd
                     args.o = os.path.join(tmp, 'table.pickle')
                     ct.create_count_table(args, return_df=False)
@@ -391,8 +431,12 @@ def main():
                 emit(e)
                 for o in gen_optsets(rng, scene, nopt, pair_cycle, km_cycle):
                     u = rng.random()
-                    via = 'pickle' if u < 0.1 else 'df'
-                    res = run_one(ct, o, bams, tmp, reuse=0.1 <= u < 0.25, via=via)
+                    via = 'pickle' if u < 0.07 else 'csv' if u < 0.14 else 'df'
+                    if via != 'df':
+                        o['bulk'] = rng.random() < 0.4          # --bulk only exists on the export path
+                    if via == 'csv':
+                        o['nonames'] = True                     # header without index names (see read_csv_table)
+                    res = run_one(ct, o, bams, tmp, reuse=0.14 <= u < 0.28, via=via)
                     for k, (raised, rows) in enumerate(res):
                         tid += 1
                         emit({'ev': 'table', 'tid': tid, 'opts': o, 'raised': raised, 'table': rows, 'via': via, 'call': k + 1})
